@@ -1,8 +1,8 @@
 #!/bin/sh
 # Run checks against a scratch worktree of /repo (never against /repo itself):
 #   tools/run_on.sh <git-rev | patch-file> <ID> [more IDs...] [-- extra check args]
-# The worktree lives under /tmp and is removed afterwards.  Evidence files written
-# by such runs are restored from git afterwards (they are not evidence for /repo).
+# The worktree lives under /tmp and is removed afterwards.  Evidence and replay files of
+# such runs go to .work/ (they are not evidence for /repo).
 set -u
 HERE="$(cd "$(dirname "$0")/.." && pwd)"
 SPEC="$1"; shift
@@ -19,13 +19,9 @@ while [ $# -gt 0 ]; do
   IDS="$IDS $1"; shift
 done
 rc=0
-mkdir -p "$HERE/.work/evidence_scratch"
 for id in $IDS; do
-  cp "$HERE/evidence/$id.json" "$HERE/.work/evidence_scratch/$id.json.keep" 2>/dev/null
   PV_REPO="$WT" "$HERE/check" "$id" $EXTRA; r=$?
   echo "== $id on $SPEC: exit $r"
-  cp "$HERE/evidence/$id.json" "$HERE/.work/evidence_scratch/$id.json" 2>/dev/null
-  if [ -f "$HERE/.work/evidence_scratch/$id.json.keep" ]; then mv "$HERE/.work/evidence_scratch/$id.json.keep" "$HERE/evidence/$id.json"; fi
   [ $r -ne 0 ] && rc=$r
 done
 git -C /repo worktree remove --force "$WT"
